@@ -14,7 +14,7 @@ let judge _id (c : cursor) (r : cursor) : bool * string =
     let m = read_pomdp c in
     let s = int_of_nat m.pm.nS in
     let bs = read_beliefs c s in
-    if not (wf_mdpb m.pm) then failwith "generator produced an ill-formed MDP";
+    if not (wf_mdp1b m.pm) then failwith "generator produced an ill-formed MDP";
     let site = (match alg with "ip" -> "IncrementalPruning::operator()" | "wit" -> "Witness::operator()" | _ -> "LinearSupport::operator()") in
     (match peek r with "THROW" | "CRASH" | "TIMEOUT" | "SANITIZER" -> oracle_fail "solver_returns" site ("implementation did not return: " ^ String.concat " " (rest r)) | _ -> ());
     let _var = next r in
